@@ -4,6 +4,8 @@ import (
 	"fmt"
 	"go/types"
 	"strings"
+
+	"golang.org/x/tools/go/ssa"
 )
 
 // ---- encoding/binary support (by static type, no reflection) ----
@@ -292,7 +294,7 @@ func (in *Interp) errorsAs(fr *frame, err Iface, target Iface) Value {
 			return in.tb.T
 		}
 		// Unwrap
-		m := in.prog.LookupMethod(err.T, nil, "Unwrap")
+		m := in.lookupMethod(err.T, "Unwrap")
 		if m == nil {
 			return in.tb.F
 		}
@@ -509,4 +511,13 @@ func (in *Interp) binDecodePadded(bs []Value, p *Value, t types.Type) {
 		}
 	}
 	rec(p, t)
+}
+
+// lookupMethod returns the exported method name of dynamic type t, or nil.
+func (in *Interp) lookupMethod(t types.Type, name string) *ssa.Function {
+	sel := in.prog.MethodSets.MethodSet(t).Lookup(nil, name)
+	if sel == nil {
+		return nil
+	}
+	return in.prog.MethodValue(sel)
 }
